@@ -14,6 +14,7 @@ import (
 	"crypto/elliptic"
 	"crypto/rand"
 	"crypto/sha256"
+	"encoding/binary"
 	"fmt"
 	"os"
 	"sort"
@@ -164,6 +165,36 @@ func boundaryParamLen(r *common.Rand, name enc.Name, kind string) int {
 	return plen
 }
 
+// craftedCollision returns two different 48..63-byte generic components with the same XXH64 hash (copied
+// from harness/c14): XXH64 folds 32-byte stripes into four independent lanes with invertible arithmetic,
+// so a change of one 8-byte word is cancelled by a computed change of the word 32 bytes further on. The
+// component hash input is 16 header bytes followed by the value, which only shifts the lane. A trie
+// that keyed its children by Component.Hash() would merge the two; the engine's trie is keyed by the
+// TLV string and must not.
+func craftedCollision(r *common.Rand) (enc.Component, enc.Component) {
+	const p1, p2 uint64 = 11400714785074694791, 14029467366897019727
+	rol := func(x uint64, k uint) uint64 { return x<<k | x>>(64-k) }
+	round := func(acc, in uint64) uint64 { return rol(acc+in*p2, 31) * p1 }
+	inv := p2
+	for i := 0; i < 6; i++ {
+		inv *= 2 - p2*inv
+	}
+	n := 48 + r.Intn(16)
+	v1 := r.Bytes(n)
+	v2 := append([]byte(nil), v1...)
+	off := 8 * r.Intn(2)
+	v2[off+r.Intn(8)] ^= byte(1 << r.Intn(8))
+	seed := uint64(0)
+	if off == 8 {
+		seed = ^uint64(p1) + 1
+	}
+	s1 := round(seed, binary.LittleEndian.Uint64(v1[off:]))
+	s1x := round(seed, binary.LittleEndian.Uint64(v2[off:]))
+	w2 := binary.LittleEndian.Uint64(v1[off+32:])
+	binary.LittleEndian.PutUint64(v2[off+32:], w2+(s1-s1x)*inv)
+	return enc.Component{Typ: 8, Val: v1}, enc.Component{Typ: 8, Val: v2}
+}
+
 func comp(s string) enc.Component {
 	return enc.NewStringComponent(enc.TypeGenericNameComponent, s)
 }
@@ -218,6 +249,16 @@ func genHistory(g *common.Gen, r *common.Rand) {
 			comp("a"),
 			{Typ: 9, Val: []byte("a")},
 		}
+	}
+	// one history in eight: two components crafted to have the same XXH64 hash (plus an ordinary one)
+	if !twins && r.Chance(1, 8) {
+		twins = true
+		cx, cy := craftedCollision(r)
+		if cx.Hash() != cy.Hash() || cx.Equal(cy) {
+			panic("harness: craftedCollision did not produce a collision")
+		}
+		alpha = []enc.Component{cx, cy, comp("a")}
+		g.Stat("history-hash-colliding-names")
 	}
 	// every fourth history runs on the engine's test clock (std/engine/dummy.Timer) instead of the
 	// real timer: the clock moves only with the ops, so ops can stand EXACTLY on a timer instant
@@ -510,7 +551,7 @@ func genHistory(g *common.Gen, r *common.Rand) {
 			if len(name) == 0 {
 				name = uni(1, 1)
 			}
-			g.Op("nack %s w%d @%d", common.NameText(name), 1+r.Intn(2), t)
+			g.Op("nack %s w%d %s @%d", common.NameText(name), 1+r.Intn(2), pickHop(r), t)
 			g.Stat("op-nack")
 		case x < 78: // attach
 			p := uni(0, 2)
@@ -559,7 +600,7 @@ func genHistory(g *common.Gen, r *common.Rand) {
 			}
 			label := "r" + strconv.Itoa(nRx)
 			nRx++
-			g.Op("interest %s %s %s %s @%d", label, common.NameText(name), life, tok, t)
+			g.Op("interest %s %s %s %s %s @%d", label, common.NameText(name), life, tok, pickHop(r), t)
 			for _, a := range attached {
 				if a.IsPrefix(name) {
 					rxs = append(rxs, gRx{label, t + lifeUs})
@@ -609,6 +650,19 @@ func pickWrap(r *common.Rand) int {
 		return 1
 	}
 	return 2
+}
+
+// pickHop: HopLimit of an incoming Interest / of the Interest returned inside a Nack: absent, 0 (what the
+// application at the last permitted hop receives), 1, 255
+func pickHop(r *common.Rand) string {
+	return common.Pick(r, []string{"h-", "h-", "h0", "h0", "h1", "h255"})
+}
+
+// setHop applies an "h<n>" token to an Interest configuration.
+func setHop(cfg *ndn.InterestConfig, tok string) {
+	if len(tok) > 1 && tok[0] == 'h' && tok != "h-" {
+		cfg.HopLimit = utils.IdPtr(uint(common.Atoi(tok[1:])))
+	}
 }
 
 func b2i(b bool) int {
@@ -946,7 +1000,11 @@ func (h *hist) execOp(op string) string {
 		}
 	case "nack":
 		name := common.ParseNameText(f[1])
-		it, err := spec.Spec{}.MakeInterest(name, &ndn.InterestConfig{Nonce: utils.IdPtr(uint64(7))}, nil, nil)
+		ncfg := &ndn.InterestConfig{Nonce: utils.IdPtr(uint64(7))}
+		if len(f) > 3 {
+			setHop(ncfg, f[3])
+		}
+		it, err := spec.Spec{}.MakeInterest(name, ncfg, nil, nil)
 		if err != nil {
 			return "pre=" + pre + " res=make-err cb=-"
 		}
@@ -979,6 +1037,9 @@ func (h *hist) execOp(op string) string {
 	case "interest":
 		label, name := f[1], common.ParseNameText(f[2])
 		cfg := &ndn.InterestConfig{Nonce: utils.IdPtr(uint64(9))}
+		if len(f) > 5 {
+			setHop(cfg, f[5])
+		}
 		if f[3] != "-" {
 			cfg.Lifetime = utils.IdPtr(time.Duration(common.Atoi(f[3])) * time.Millisecond)
 		}
